@@ -739,7 +739,11 @@ class Interp:
             return opaque_atom(arr.desc, idx)
         if arr.kind == "overlay":
             return self.subscript(arr.ref, [("fix", i) for i in idx], node, _skip_overlay=True)
-        self.err(node, "read of uninitialised slot of %s" % arr.desc)
+        # no store can have reached this slot of an np.empty array: a defect of the code, not a limit of the analysis
+        from .core import DefectFound
+
+        raise DefectFound(self.module.rel if self.module else "?", self.fn.name, getattr(node, "lineno", self.fn.lineno), "uninitialised read: " + _short(node),
+                          "`%s` reads a slot of the array `%s` (allocated without initial values) that no earlier store writes: the value is whatever the memory held" % (_short(node), arr.desc))
 
     def compose(self, view, spec, node):
         out = []
